@@ -1343,7 +1343,7 @@ class UserSessionManager(Service, discriminator="user-session-manager"):
             self.remote_sessions.pop(session.uuid)
             session_type = "Remote"
             session_identity = f"{session_identity} {session.remote_ip_address}"
-            self.parent.terminal._connections.pop(session.uuid)
+            self.parent.terminal._connections.pop(session.uuid, None)
             software_manager: SoftwareManager = self.software_manager
             software_manager.send_payload_to_session_manager(
                 payload={"type": "user_timeout", "connection_id": session.uuid},
